@@ -285,6 +285,16 @@ func (fr *Frame) execInstr(in ssa.Instruction, st *State) {
 	case *ssa.TypeAssert:
 		fr.typeAssert(x, st)
 	case *ssa.Defer:
+		if fr.top && fx.contract != nil {
+			// `defer:<callee>` event: the call is registered to run when the function returns
+			name := "dynamic"
+			if x.Call.IsInvoke() {
+				name = "iface:" + ifaceMethodName(x.Call.Value.Type(), x.Call.Method)
+			} else if sc := x.Call.StaticCallee(); sc != nil {
+				name = fx.eng.shortName(sc)
+			}
+			fr.ghostAnchors("defer:"+name, st)
+		}
 		fr.defers = append(fr.defers, x)
 		fr.deferPCs = append(fr.deferPCs, st.pc)
 		var vs []Val
